@@ -20,11 +20,22 @@
 #ifndef W_PAYLOAD
 #define W_PAYLOAD int
 #endif
+// W_VOID: the default configuration (no payload type): the payload-free specialisations TransitionT<void>, TaskT<void>,
+// PlanDataT<ArgsT<.., void>>, FullControlT<ArgsT<.., void>> are instantiated instead; W_P(x) drops the payload calls
+#ifdef W_VOID
+#define W_P(...)
+#else
+#define W_P(...) __VA_ARGS__
+#endif
 
 struct Ctx { int v; };
 struct Ev { int x; };
 
-using Cfg = ffsm2::Config::ContextT<Ctx&>::PayloadT<W_PAYLOAD>::TaskCapacityN<W_TASKS>::SubstitutionLimitN<W_LIMIT>
+using Cfg = ffsm2::Config::ContextT<Ctx&>
+#ifndef W_VOID
+	::PayloadT<W_PAYLOAD>
+#endif
+	::TaskCapacityN<W_TASKS>::SubstitutionLimitN<W_LIMIT>
 #ifdef W_MANUAL
 	::ManualActivation
 #endif
@@ -61,14 +72,14 @@ struct A : FSM::State { W_ALL_CALLBACKS };
 // B exercises the whole control API so that its member functions are instantiated (the bodies below are user code:
 // they are never lowered, calls to them are replaced by contract stubs)
 struct B : FSM::State {
-	void entryGuard(GuardControl& control) { control.cancelPendingTransition(); (void) control.pendingTransition(); (void) control.currentTransition(); (void) control.pendingTransition().payload(); }
+	void entryGuard(GuardControl& control) { control.cancelPendingTransition(); (void) control.pendingTransition(); (void) control.currentTransition(); W_P((void) control.pendingTransition().payload();) }
 	void update(FullControl& control) {
-		control.changeTo(ffsm2::StateID{1}); control.changeTo<A>(); control.changeWith(ffsm2::StateID{1}, W_PAYLOAD{}); control.changeWith<A>(W_PAYLOAD{});
+		control.changeTo(ffsm2::StateID{1}); control.changeTo<A>(); W_P(control.changeWith(ffsm2::StateID{1}, W_PAYLOAD{}); control.changeWith<A>(W_PAYLOAD{});)
 		control.succeed(); control.fail(); control.succeed(ffsm2::StateID{1}); control.fail(ffsm2::StateID{1});
 		(void) control.isActive(ffsm2::StateID{1}); (void) control.isActive<A>(); (void) control.stateId(); (void) control.context(); (void) control._(); (void) control.request();
 		(void) control.previousTransitions();
-		auto p = control.plan(); (void) p.change(ffsm2::StateID{0}, ffsm2::StateID{1}); (void) p.changeWith(ffsm2::StateID{0}, ffsm2::StateID{1}, W_PAYLOAD{}); p.clear();
-		(void) static_cast<bool>(p); for (auto it = p.begin(); it; ++it) { (void) it->payload(); it.remove(); }
+		auto p = control.plan(); (void) p.change(ffsm2::StateID{0}, ffsm2::StateID{1}); W_P((void) p.changeWith(ffsm2::StateID{0}, ffsm2::StateID{1}, W_PAYLOAD{});) p.clear();
+		(void) static_cast<bool>(p); for (auto it = p.begin(); it; ++it) { W_P((void) it->payload();) it.remove(); }
 		const FullControl& cc = control; auto cp = cc.plan(); (void) static_cast<bool>(cp); for (auto it = cp.begin(); it; ++it) (void) it->origin;
 	}
 	void enter(PlanControl& control) { (void) control.currentTransition(); auto p = control.plan(); (void) p.change<A, B>(); }
@@ -88,7 +99,7 @@ using WLogger = FSM::Instance::Logger;
 #else
 using WLogger = void;
 #endif
-void w_drive(Ctx& c, Ev& e, WLogger* l, const W_PAYLOAD& p) {
+void w_drive(Ctx& c, Ev& e, WLogger* l W_P(, const W_PAYLOAD& p)) {
 	FSM::Instance m{c};
 #ifdef W_MANUAL
 	m.enter();
@@ -96,9 +107,9 @@ void w_drive(Ctx& c, Ev& e, WLogger* l, const W_PAYLOAD& p) {
 #endif
 	m.update(); m.react(e); m.query(e);
 	m.changeTo<B>(); m.immediateChangeTo<B>();
-	m.changeWith<C>(p); m.immediateChangeWith<C>(p);
+	W_P(m.changeWith<C>(p); m.immediateChangeWith<C>(p);)
 	(void) m.activeStateId(); (void) m.isActive<A>(); (void) m.isActive(ffsm2::StateID{1});
-	m.plan().change<A, B>(); m.plan().changeWith<A, B>(p); m.plan().clear();
+	m.plan().change<A, B>(); W_P(m.plan().changeWith<A, B>(p);) m.plan().clear();
 	(void) static_cast<bool>(m.plan());
 	for (auto it = m.plan().begin(); it; ++it) it.remove();
 	const FSM::Instance& cm = m;
